@@ -258,6 +258,24 @@ def explore(ctx):
                 expected = [(a_, pairs[a_]) for a_ in sorted(pairs)][:20]
             if sts != expected[:len(sts)] or (len(sts) < 20 and len(sts) != len(expected)):
                 viol('not-all-offered:balanced', f'balanced::{arg} on {text!r}: offered {sts}, matches {expected}', {'pass': 'balanced', 'arg': arg, 'text': text})
+            if not prefix:
+                # the driver's all-reject run (new; transform, which skips groups whose replacement changes nothing;
+                # advance from the state transform returned) against the model's all_rejected, for which
+                # C07_balanced_every_group_offered is proved
+                offered, st_ = [], p.new(path, None)
+                while st_ is not None and len(offered) < 20:
+                    res_, out_, st2_, _ = run_transform(ctx, p, text, st_)
+                    ctx.evaluations += 1
+                    if res_ != 'OK':
+                        break
+                    offered.append(tuple(st2_))
+                    st_ = p.advance(path, st2_)
+                want_off = [sp_ for sp_ in expected if {0: text[:sp_[0]] + text[sp_[1]:], 1: text[:sp_[0]] + text[sp_[0] + 1:sp_[1] - 1] + text[sp_[1]:],
+                                                         2: text[:sp_[0] + 1] + text[sp_[1] - 1:], 3: text[:sp_[0]] + mode[1] + text[sp_[1]:]}[mode[0]] != text]
+                if len(expected) < 20 and offered != want_off:
+                    viol('not-all-offered:balanced', f'balanced::{arg} on {text!r}, every candidate rejected: offered {offered}, groups whose replacement changes the text {want_off}',
+                         {'pass': 'balanced', 'arg': arg, 'text': text})
+                cs.add('run_balanced_all', f'(({ord(o)}%N, {ord(c)}%N), ({mode[0]}, {ct(mode[1])}), {ct(text)}, 20)', [x_ for sp_ in offered for x_ in sp_])
             tbl = '(@nil (list nat))'
             if prefix:
                 r = re.compile(prefix, flags=re.DOTALL)
